@@ -56,7 +56,7 @@ TInit ==
   /\ acc = EmptyFn /\ requeue = EmptyFn /\ route = EmptyFn /\ lrnOf = EmptyFn /\ sels = EmptyFn
   /\ lrns = EmptyFn /\ nsel = 0 /\ selOf = EmptyFn /\ bgprio = 0 /\ gone = {} /\ nonconf = 0 /\ clock = 0
   /\ stats = [sections |-> 0, picks |-> 0, handoffs |-> 0, merged |-> 0, requeued |-> 0, background |-> 0,
-              completed_by_worker |-> 0, completed_by_scheduler |-> 0, cleanups |-> 0, quiescent |-> 0, finals |-> 0]
+              completed_by_worker |-> 0, completed_by_scheduler |-> 0, cleanups |-> 0, quiescent |-> 0, finals |-> 0, listings |-> 0]
 
 Keep(vs) == UNCHANGED vs
 
@@ -447,7 +447,26 @@ NewLrnOf ==
             THEN Upd(a2, CompletedTaskId(c), Isc[CHOOSE i \in fl : TRUE].next) ELSE a2
   IN a3
 
+\* Reference for "this worker is drained": terminating, or its id is a
+\* superset of some drain pattern.
+DrainedRef(q, w) ==
+  \/ w.terminating
+  \/ \E di \in DOMAIN q.drain_patterns :
+       \A kv \in Rng(q.drain_patterns[di]) : \E kw \in Rng(w.idp) : kw.k = kv.k /\ kw.v = kv.v
+
+\* Every invocation object that exists is justified: something is queued or
+\* executing below it, or an idle worker last served it.
+InvJustified(s, qi, p) ==
+  \/ p = <<>>
+  \/ \E o \in Ops(s) : o.queue + 1 = qi /\ PathPrefix(p, o.inv) /\ TaskOf(s, o.task).stage \in {"Q", "E"}
+  \/ \E w \in Rng(s.queues[qi].workers) : w.has_last /\ PathPrefix(p, w.last)
+C06_NoStaleInvocations(s) ==
+  \A qi \in QIdx(s) : \A ii \in DOMAIN s.queues[qi].invs : InvJustified(s, qi, s.queues[qi].invs[ii].path)
+
 CommonChecks == <<
+    <<C06_NoStaleInvocations(Post), "C06:invocation-retained-without-operations-or-workers">>,
+    <<\A qi \in QIdx(Post) : \A w \in Rng(Post.queues[qi].workers) : w.drained = DrainedRef(Post.queues[qi], w),
+      "C05:drained-flag-differs-from-drain-patterns">>,
     <<C01_Inv(Post), "C01:task-not-held-by-exactly-one-queue-or-worker">>,
     <<C03_Inv(Post), "C03:two-live-tasks-for-one-cacheable-action">>,
     <<C04_NoIdleWhileQueued(Post), "C04:task-queued-while-undrained-worker-waits">>,
@@ -497,17 +516,24 @@ Picked ==
 PickTid == CHOOSE id \in Picked : TRUE
 PickQ == TaskOf(Post, PickTid).worker_queue + 1
 
-QOpsI == {o \in Ops(Post) : o.queue + 1 = PickQ /\ (TaskOf(Post, o.task).stage = "Q" \/ o.task = PickTid)}
+\* Context of the reference operators: for a section it is the snapshot at
+\* its end with the picked task put back; for a listing it is the current
+\* snapshot as it is.
+CSnap == IF Line.ev = "sec" THEN Post ELSE S
+CTid == IF Line.ev = "sec" /\ Picked # {} THEN PickTid ELSE 0
+CQ == IF Line.ev = "sec" THEN PickQ ELSE Line.queue + 1
+
+QOpsI == {o \in Ops(CSnap) : o.queue + 1 = CQ /\ (TaskOf(CSnap, o.task).stage = "Q" \/ o.task = CTid)}
 DirectI(p) == {o \in QOpsI : o.inv = p}
 UnderI(p) == {o \in QOpsI : PathPrefix(p, o.inv)}
 ChildKeysI(p) == {o.inv[Len(p) + 1] : o \in {o \in UnderI(p) : Len(o.inv) > Len(p)}}
 ExecWI(p) ==
-  {t.worker : t \in {t \in Tasks(Post) : t.stage = "E" /\ t.id # PickTid /\ t.worker_queue + 1 = PickQ /\
-                        \E n \in Rng(t.ops) : PathPrefix(p, OpOf(Post, n).inv)}}
+  {t.worker : t \in {t \in Tasks(CSnap) : t.stage = "E" /\ t.id # CTid /\ t.worker_queue + 1 = CQ /\
+                        \E n \in Rng(t.ops) : PathPrefix(p, OpOf(CSnap, n).inv)}}
 
 OpLess(o1, o2) ==
-  LET t1 == TaskOf(Post, o1.task)
-      t2 == TaskOf(Post, o2.task)
+  LET t1 == TaskOf(CSnap, o1.task)
+      t2 == TaskOf(CSnap, o2.task)
   IN \/ o1.prio < o2.prio
      \/ o1.prio = o2.prio /\ t1.exp_dur > t2.exp_dur
      \/ o1.prio = o2.prio /\ t1.exp_dur = t2.exp_dur /\ t1.queued_at < t2.queued_at
@@ -516,13 +542,13 @@ BestOps(p) == {o \in DirectI(p) : \A e \in DirectI(p) : ~OpLess(e, o)}
 InvIn(s, qkey, p) ==
   {i \in UNION {Rng(s.queues[qi].invs) : qi \in {k \in QIdx(s) : QueueKey(s.queues[k]) = qkey}} : i.path = p}
 
-OnPickedPath(p) == \E n \in Rng(TaskOf(Post, PickTid).ops) : PathPrefix(p, OpOf(Post, n).inv)
+OnPickedPath(p) == CTid # 0 /\ \E n \in Rng(TaskOf(CSnap, CTid).ops) : PathPrefix(p, OpOf(CSnap, n).inv)
 
 LastStartedI(p) ==
-  LET qkey == QueueKey(Post.queues[PickQ])
-      src == IF OnPickedPath(p) THEN S ELSE Post
+  LET qkey == QueueKey(CSnap.queues[CQ])
+      src == IF OnPickedPath(p) THEN S ELSE CSnap
       found == InvIn(src, qkey, p)
-  IN IF found = {} THEN Post.now ELSE (CHOOSE i \in found : TRUE).last_started
+  IN IF found = {} THEN CSnap.now ELSE (CHOOSE i \in found : TRUE).last_started
 
 Pow2(k) == 2 ^ k
 
@@ -569,7 +595,7 @@ AllowedAt(p, keys, lims, sts) ==
   IF DirectI(p) # {} THEN {o.task : o \in BestOps(p)}
   ELSE UNION {
          LET sticky == Len(keys) > 0 /\ Len(lims) > 0 /\ keys[1] \in ChildKeysI(p)
-             chosen == IF sticky /\ PrefI(Append(p, keys[1]), Append(p, b), sts[1] >= 0 /\ sts[1] + lims[1] > Post.now)
+             chosen == IF sticky /\ PrefI(Append(p, keys[1]), Append(p, b), sts[1] >= 0 /\ sts[1] + lims[1] > CSnap.now)
                        THEN keys[1] ELSE b
              cont == Len(keys) > 0 /\ Len(lims) > 0 /\ chosen = keys[1]
          IN AllowedAt(Append(p, chosen),
@@ -696,13 +722,79 @@ TFinal ==
   /\ stats' = [stats EXCEPT !.finals = @ + 1]
   /\ UNCHANGED <<S, cfg, calls, stm, acc, requeue, route, lrnOf, sels, lrns, nsel, selOf, bgprio, gone, nonconf, clock>>
 
+
+-----------------------------------------------------------------------------
+(* Read-only BuildQueueState API: what it reports must agree with what the *)
+(* specification derives from the snapshot (growth beyond the listed       *)
+(* properties; the orderings are those of C04, the counts those of C01).   *)
+
+SeqSet(q) == {q[i] : i \in DOMAIN q}
+NoDup(q) == \A i, j \in DOMAIN q : i # j => q[i] # q[j]
+OpNum(n) == CHOOSE k \in 0 .. 999 : n = "o" \o ToString(k)
+
+ListingChecks ==
+  CASE Line.what = "invocation" ->
+         LET p == Line.path
+             q == S.queues[CQ]
+             direct == {o.name : o \in DirectI(p)}
+             keysDistinct == \A a, b \in DirectI(p) : a # b => (OpLess(a, b) \/ OpLess(b, a))
+             idle == Cardinality({w \in Rng(q.workers) : w.has_last /\ PathPrefix(p, w.last)})
+             idleSync == Cardinality({w \in Rng(q.workers) : w.parked /\ w.has_last /\ w.last = p})
+             node == CHOOSE i \in Rng(q.invs) : i.path = p
+         IN <<
+           <<Line.ok, "NC:listing-failed">>,
+           <<SeqSet(Line.ops) = direct /\ NoDup(Line.ops), "C04:listed-queued-operations-differ-from-queue">>,
+           <<\A i, j \in DOMAIN Line.ops : i < j => ~OpLess(OpOf(S, Line.ops[j]), OpOf(S, Line.ops[i])), "C04:queued-operations-not-listed-in-scheduling-order">>,
+           <<SeqSet(Line.paged) \subseteq direct /\ (keysDistinct => Line.paged = Line.ops), "C04:paginated-listing-of-queued-operations-differs">>,
+           <<SeqSet(Line.children) = ChildKeysI(p) /\ NoDup(Line.children), "C04:listed-queued-invocations-differ-from-queue">>,
+           <<Undecidable \/ \A i, j \in DOMAIN Line.children : i < j =>
+                ~PrefI(Append(p, Line.children[j]), Append(p, Line.children[i]),
+                       LastStartedI(Append(p, Line.children[j])) < LastStartedI(Append(p, Line.children[i]))),
+             "C04:queued-invocations-not-listed-in-scheduling-order">>,
+           <<Line.executing = Cardinality(ExecWI(p)), "C01:executing-workers-count-differs-from-executing-tasks">>,
+           <<Line.idle = idle /\ Line.idle_sync = idleSync, "C01:idle-workers-count-differs-from-workers">>,
+           <<Line.queued_direct = Cardinality(DirectI(p)) /\ Line.queued_indirect = Cardinality(UnderI(p)) - Cardinality(DirectI(p)),
+             "C01:queued-operations-count-differs-from-queue">>,
+           <<SeqSet(Line.all) = SeqSet(node.children) /\ Line.n_children = Len(node.children), "NC:children-listing">>,
+           <<SeqSet(Line.active) = {c \in SeqSet(node.children) : UnderI(Append(p, c)) # {} \/ ExecWI(Append(p, c)) # {}}, "C01:active-invocations-listing-differs">>
+         >>
+    [] Line.what = "workers" ->
+         LET q == S.queues[Line.queue + 1] IN <<
+           <<Line.ok, "NC:listing-failed">>,
+           <<SeqSet(Line.ids) = {w.id : w \in Rng(q.workers)} /\ NoDup(Line.ids), "C01:listed-workers-differ">>,
+           <<\A i \in DOMAIN Line.ids : \A w \in Rng(q.workers) : w.id = Line.ids[i] =>
+               /\ Line.drained[i] = DrainedRef(q, w)
+               /\ Line.timeouts[i] = w.cleanup_at
+               /\ (w.task = 0 <=> Line.ops[i] = "")
+               /\ (w.task # 0 => Line.ops[i] \in Rng(TaskOf(S, w.task).ops)),
+             "C05:listed-worker-state-differs">>
+         >>
+    [] Line.what = "operations" -> <<
+           <<SeqSet(Line.names) = OpNames(S) /\ NoDup(Line.names) /\ Line.total = Cardinality(OpNames(S)), "C01:paginated-operations-listing-differs">>,
+           <<\A i, j \in DOMAIN Line.names : i < j => OpNum(Line.names[i]) < OpNum(Line.names[j]), "NC:operations-not-sorted">>,
+           <<\A i \in DOMAIN Line.names : HasOp(S, Line.names[i]) => Line.stages[i] = TaskOf(S, OpOf(S, Line.names[i]).task).stage,
+             "C02:listed-stage-differs-from-task-stage">>
+         >>
+    [] OTHER -> << <<TRUE, "ok">> >>
+
+\* Non-conformances of listings are counted, property failures are verdicts.
+TListing ==
+  /\ IsEvent("listing")
+  /\ LET checks == ListingChecks
+         hard == SelectSeq(checks, LAMBDA c : SubSeq(c[2], 1, 3) # "NC:")
+         soft == SelectSeq(checks, LAMBDA c : SubSeq(c[2], 1, 3) = "NC:" /\ ~c[1])
+     IN /\ verdict' = FirstFail(hard)
+        /\ nonconf' = nonconf + Len(soft)
+  /\ stats' = [stats EXCEPT !.listings = @ + 1]
+  /\ UNCHANGED <<S, cfg, calls, stm, acc, requeue, route, lrnOf, sels, lrns, nsel, selOf, bgprio, gone, clock>>
+
 \* The real code panicked.
 TPanic ==
   /\ IsEvent("panic")
   /\ verdict' = "PANIC:scheduler-panicked"
   /\ UNCHANGED <<S, cfg, calls, stm, acc, requeue, route, lrnOf, sels, lrns, nsel, selOf, bgprio, gone, nonconf, stats, clock>>
 
-TNext == TPanic \/ TReset \/ TConfig \/ TPredeclare \/ TNoop \/ TAdvance \/ TCancel \/ TCall \/ TSend \/ TRet \/ TSec \/ TQuiescent \/ TFinal
+TNext == TListing \/ TPanic \/ TReset \/ TConfig \/ TPredeclare \/ TNoop \/ TAdvance \/ TCancel \/ TCall \/ TSend \/ TRet \/ TSec \/ TQuiescent \/ TFinal
 
 TraceSpec == TInit /\ [][TNext]_tvars
 
